@@ -72,6 +72,13 @@ var (
 
 func init() {
 	masswallet.VerifGate = func(h *masswallet.NtfnsHandler, point string) {
+		stopGatesMu.Lock()
+		sg := stopGates[h]
+		stopGatesMu.Unlock()
+		if sg != nil {
+			sg.hit(point)
+			return
+		}
 		gatesMu.Lock()
 		g := gates[h]
 		gatesMu.Unlock()
@@ -145,6 +152,16 @@ type World struct {
 
 // NewWorld builds environment, wallets and the base chain and starts the follower.
 func NewWorld(u *Universe, dir string, gapLimit uint32) (*World, error) {
+	return newWorld(u, dir, gapLimit, nil)
+}
+
+// NewWorldGated is NewWorld with a hook run after the manager exists and before Start; the hook
+// installs its own scheduling gate, and the usual step gate is not waited for.
+func NewWorldGated(u *Universe, dir string, install func(w *World)) (*World, error) {
+	return newWorld(u, dir, 5, install)
+}
+
+func newWorld(u *Universe, dir string, gapLimit uint32, install func(w *World)) (*World, error) {
 	{
 		sc := env.Scale{CoinbaseMaturity: uint64(u.CbMat), MinFrozenPeriod: uint64(u.MinFrozen), BindingLock: uint64(u.BindLock), WarmUpHeight: 1 << 40}
 		if u.WarmUp > 0 {
@@ -208,6 +225,16 @@ func NewWorld(u *Universe, dir string, gapLimit uint32) (*World, error) {
 		if err := w.E.Attach(w.Blk[b]); err != nil {
 			return nil, err
 		}
+	}
+	if install != nil {
+		gatesMu.Lock()
+		delete(gates, w.H)
+		gatesMu.Unlock()
+		install(w)
+		if err := w.W.Start(); err != nil {
+			return nil, fmt.Errorf("Start: %v", err)
+		}
+		return w, nil
 	}
 	if err := w.start(); err != nil {
 		return nil, err
@@ -1118,6 +1145,9 @@ type Options struct {
 	FaultStep int    `json:"fault_step"`
 	FaultCall int64  `json:"fault_call"`
 	Seed      int64  `json:"seed"`
+	Actions   []string `json:"actions"`
+	Tasks     []string `json:"tasks"`
+	Final     string   `json:"final"`
 }
 
 // Run dispatches on the replay mode ("" = plain conformance replay).
@@ -1131,6 +1161,8 @@ func Run(u *Universe, h History, dir, mode string, opt Options) Result {
 		return ReplayFault(u, h, dir, opt.FaultStep, opt.FaultCall)
 	case "fault-addresses":
 		return FaultAddresses(u, dir, opt.Seed)
+	case "stop-schedule":
+		return StopSchedule(u, opt.Actions, opt.Tasks, opt.Final, dir)
 	}
 	return Result{OK: false, Step: -1, Err: "unknown mode " + mode, Sig: "infra"}
 }
